@@ -223,7 +223,7 @@ func init() {
 		plen := ite(app("<", length, avail), length, avail)
 		hlo := ex.freshConst("ip6plo", sInt)
 		hhi := ex.freshConst("ip6phi", sInt)
-		ex.assume(and(app("<=", "40", hlo), app("<=", hlo, hhi), app("<=", hhi, n)))
+		ex.assume(imp(not(short), and(app("<=", "40", hlo), app("<=", hlo, hhi), app("<=", hhi, n))))
 		lo := ite(isHbh, hlo, "40")
 		hi := ite(isHbh, hhi, app("+", "40", plen))
 		// BaseLayer{Contents, Payload}
